@@ -523,19 +523,74 @@ Proof.
   eexists. split; [reflexivity|]. unfold aligned. cbn [f_stats f_lines]. rewrite !map_length. reflexivity.
 Qed.
 
-(* ParseCommentFragment: for every list of comment lines (arbitrary bytes) it returns; no panic escapes *)
-Theorem parse_fragment_no_fault : forall lines, exists fr, parse_fragment lines = Ok fr.
+(* ------------------------------------------------------------------ the repaired loop (lastAliasState) *)
+Theorem frag_step_fx_no_fault : forall st ln, exists st', frag_step_fx st ln = Ok st'.
 Proof.
-  intros lines. unfold parse_fragment. destruct (frag_loop_no_fault lines (mkFrag [] [] [])) as [fr Hfr].
-  rewrite Hfr. cbn [rbind].
-  destruct (clear_empty_alias_ok fr (frag_loop_aligned lines _ _ Hfr eq_refl)) as (fr' & -> & _). eauto.
+  intros [fr la] [lno text]. unfold frag_step_fx.
+  destruct (check_head_ok s_alias_head text eq_refl) as (ah & -> & _). cbn [rbind].
+  destruct ah as [c|].
+  - destruct (parse_extra_alias_line_ok (mkLx c None)) as (r & l' & ->). destruct r; [destruct la|]; eauto.
+  - destruct (check_head_ok s_head text eq_refl) as (h & -> & _). cbn [rbind].
+    destruct h as [c|]; [|eauto].
+    destruct (ann_parse_line_no_fault c) as [r ->]. cbn [rbind].
+    destruct r as [s|e]; [destruct s|]; eauto.
+Qed.
+
+Theorem frag_loop_fx_no_fault : forall lines st, exists st', frag_loop_fx st lines = Ok st'.
+Proof.
+  induction lines as [|ln rest IH]; intros st; cbn [frag_loop_fx]; [eauto|].
+  destruct (frag_step_fx_no_fault st ln) as [st' ->]. cbn [rbind]. apply IH.
+Qed.
+
+Lemma frag_step_fx_aligned st ln st' : frag_step_fx st ln = Ok st' -> aligned (fst st) -> aligned (fst st').
+Proof.
+  destruct st as [fr la]. destruct ln as [lno text]. unfold frag_step_fx, aligned. cbn [fst]. intros H Ha.
+  destruct (check_head s_alias_head text) as [[c|]| |]; cbn [rbind] in H; try discriminate H.
+  - destruct (parse_extra_alias_line (mkLx c None)) as [[ct|] l'| | |]; try discriminate H.
+    + destruct la; injection H as <-; cbn [fst f_stats f_lines]; [|exact Ha].
+      rewrite append_alias_last_length. exact Ha.
+    + injection H as <-. exact Ha.
+  - destruct (check_head s_head text) as [[c|]| |]; cbn [rbind] in H; try discriminate H.
+    + destruct (ann_parse_line (fuel_of c) c) as [[s|e]| |]; cbn [rbind] in H; try discriminate H.
+      * destruct s; injection H as <-; cbn [fst f_stats f_lines]; try exact Ha; rewrite !app_length; cbn [length]; lia.
+      * injection H as <-. exact Ha.
+    + injection H as <-. exact Ha.
+Qed.
+
+Lemma frag_loop_fx_aligned ls : forall st st', frag_loop_fx st ls = Ok st' -> aligned (fst st) -> aligned (fst st').
+Proof.
+  induction ls as [|ln ls IH]; intros st st' H Ha; cbn [frag_loop_fx] in H.
+  - injection H as <-. exact Ha.
+  - destruct (frag_step_fx st ln) as [st1| |] eqn:E; cbn [rbind] in H; try discriminate H.
+    eapply IH; [exact H|]. eapply frag_step_fx_aligned; eassumption.
+Qed.
+
+(* ParseCommentFragment, before and after the repair of the continuation lines: for every list of comment lines
+   (arbitrary bytes) it returns; no panic escapes *)
+Theorem parse_fragment_gen_no_fault : forall cont lines, exists fr, parse_fragment_gen cont lines = Ok fr.
+Proof.
+  intros cont lines. unfold parse_fragment_gen. destruct cont.
+  - destruct (frag_loop_fx_no_fault lines (mkFrag [] [] [], false)) as [st Hst]. rewrite Hst. cbn [rbind].
+    destruct (clear_empty_alias_ok (fst st) (frag_loop_fx_aligned lines _ _ Hst eq_refl)) as (fr' & -> & _). eauto.
+  - destruct (frag_loop_no_fault lines (mkFrag [] [] [])) as [fr Hfr]. rewrite Hfr. cbn [rbind].
+    destruct (clear_empty_alias_ok fr (frag_loop_aligned lines _ _ Hfr eq_refl)) as (fr' & -> & _). eauto.
 Qed.
 
 (* ... and Lines[i] is the line of Stats[i]: the two slices have the same length for ALL inputs *)
-Theorem parse_fragment_aligned : forall lines fr, parse_fragment lines = Ok fr -> aligned fr.
+Theorem parse_fragment_gen_aligned : forall cont lines fr, parse_fragment_gen cont lines = Ok fr -> aligned fr.
 Proof.
-  intros lines fr. unfold parse_fragment. destruct (frag_loop_no_fault lines (mkFrag [] [] [])) as [fr0 Hfr].
-  rewrite Hfr. cbn [rbind].
-  destruct (clear_empty_alias_ok fr0 (frag_loop_aligned lines _ _ Hfr eq_refl)) as (fr' & -> & Ha).
-  intros H. injection H as <-. exact Ha.
+  intros cont lines fr. unfold parse_fragment_gen. destruct cont.
+  - destruct (frag_loop_fx_no_fault lines (mkFrag [] [] [], false)) as [st Hst]. rewrite Hst. cbn [rbind].
+    destruct (clear_empty_alias_ok (fst st) (frag_loop_fx_aligned lines _ _ Hst eq_refl)) as (fr' & -> & Ha).
+    intros H. injection H as <-. exact Ha.
+  - destruct (frag_loop_no_fault lines (mkFrag [] [] [])) as [fr0 Hfr]. rewrite Hfr. cbn [rbind].
+    destruct (clear_empty_alias_ok fr0 (frag_loop_aligned lines _ _ Hfr eq_refl)) as (fr' & -> & Ha).
+    intros H. injection H as <-. exact Ha.
 Qed.
+
+(* the code as it is (cited by Properties/C01.v) *)
+Theorem parse_fragment_no_fault : forall lines, exists fr, parse_fragment lines = Ok fr.
+Proof. exact (parse_fragment_gen_no_fault (fx_cont deployed)). Qed.
+
+Theorem parse_fragment_aligned : forall lines fr, parse_fragment lines = Ok fr -> aligned fr.
+Proof. exact (parse_fragment_gen_aligned (fx_cont deployed)). Qed.
